@@ -1,1 +1,414 @@
+(* C20 — property theorems only.  Each is closed by [exact <lemma>] and followed by Print Assumptions.
+   Vectors have one entry per chemical and any length; [colsum ins i] is the sum over the inlets of
+   chemical i; [nonneg v] / [bounded feed v] mean 0 <= v_i (<= feed_i) for every i. *)
 From V Require Import Common.NumFacts C20.Model C20.Proofs.
+Open Scope Q_scope.
+
+(* ------------------------------------------------------------------ mix_and_split *)
+(* top + bottom = sum of all inlets, chemical by chemical, whatever the outlets held before *)
+Theorem C20_mix_split_conserves : forall n ins split,
+  (forall v, In v ins -> length v = n) -> length split = n ->
+  forall i, nthq (fst (mix_and_split n ins split)) i + nthq (snd (mix_and_split n ins split)) i == colsum ins i.
+Proof. exact mix_split_conserves_lemma. Qed.
+Print Assumptions C20_mix_split_conserves.
+
+(* the top outlet receives split_i of the mixed flow of chemical i *)
+Theorem C20_mix_split_value : forall n ins split,
+  (forall v, In v ins -> length v = n) -> length split = n ->
+  forall i, nthq (fst (mix_and_split n ins split)) i == nthq split i * colsum ins i.
+Proof. exact mix_split_value_lemma. Qed.
+Print Assumptions C20_mix_split_value.
+
+Theorem C20_mix_split_nonneg : forall n ins split,
+  (forall v, In v ins -> length v = n) -> length split = n ->
+  (forall v, In v ins -> forall j, 0 <= nthq v j) -> (forall j, 0 <= nthq split j <= 1) ->
+  forall i, 0 <= nthq (fst (mix_and_split n ins split)) i /\ 0 <= nthq (snd (mix_and_split n ins split)) i.
+Proof. exact mix_split_nonneg_lemma. Qed.
+Print Assumptions C20_mix_split_nonneg.
+
+(* ------------------------------------------------------------------ handle_infeasible_flow_rates *)
+(* a normal return leaves every entry in [0, maxmol] *)
+Theorem C20_clip_range : forall mol maxmol strict,
+  (forall j, 0 <= nthq maxmol j) ->
+  c_err (handle_infeasible mol maxmol strict) = None ->
+  forall k, 0 <= nthq (c_arr (handle_infeasible mol maxmol strict)) k <= nthq maxmol k.
+Proof. exact clip_range_lemma. Qed.
+Print Assumptions C20_clip_range.
+
+(* strict mode returns normally only if nothing had to be changed: no silent clipping *)
+Theorem C20_clip_strict_reports : forall mol maxmol,
+  length mol = length maxmol ->
+  c_err (handle_infeasible mol maxmol true) = None ->
+  c_arr (handle_infeasible mol maxmol true) = mol /\ forall k, 0 <= nthq mol k <= nthq maxmol k.
+Proof. exact clip_strict_reports_lemma. Qed.
+Print Assumptions C20_clip_strict_reports.
+
+(* a raise is InfeasibleRegion, only in strict mode, and only for an infeasible array *)
+Theorem C20_clip_raise_sound : forall mol maxmol strict e,
+  c_err (handle_infeasible mol maxmol strict) = Some e ->
+  e = EInfeasible /\ strict = true /\
+  ((exists k, nthq mol k < 0) \/ (exists k, nthq maxmol k < nthq (map clip1 mol) k)).
+Proof. exact clip_raise_sound_lemma. Qed.
+Print Assumptions C20_clip_raise_sound.
+
+(* a feasible array is returned untouched, without warning *)
+Theorem C20_clip_feasible_id : forall mol maxmol strict,
+  length mol = length maxmol -> (forall k, 0 <= nthq mol k <= nthq maxmol k) ->
+  handle_infeasible mol maxmol strict = mkClip mol None 0.
+Proof. exact clip_feasible_id_lemma. Qed.
+Print Assumptions C20_clip_feasible_id.
+
+(* ------------------------------------------------------------------ adjust_moisture_content *)
+(* retentate + permeate is unchanged for every chemical and every outcome (normal return, clamp with
+   strict = False, InfeasibleRegion), for Stream and MultiStream arguments *)
+Theorem C20_moisture_conserves : forall n mws R P w mc by_mass mwc strict,
+  wf_strm n R -> wf_strm n P -> (w < n)%nat ->
+  (by_mass = true -> ~ nthq mws w == 0) ->
+  let m := adjust_moisture mws R P w mc by_mass mwc strict in
+  forall i, nthq (total (m_ret m)) i + nthq (total (m_perm m)) i == nthq (total R) i + nthq (total P) i.
+Proof. exact moisture_conserves_lemma. Qed.
+Print Assumptions C20_moisture_conserves.
+
+(* only the liquid-row flow of the moisture chemical changes *)
+Theorem C20_moisture_frame : forall mws R P w mc by_mass mwc strict,
+  let m := adjust_moisture mws R P w mc by_mass mwc strict in
+  oth (m_ret m) = oth R /\ oth (m_perm m) = oth P /\
+  forall i, i <> w -> nthq (liq (m_ret m)) i = nthq (liq R) i /\ nthq (liq (m_perm m)) i = nthq (liq P) i.
+Proof. exact moisture_frame_lemma. Qed.
+Print Assumptions C20_moisture_frame.
+
+(* with enough water in the permeate the call returns normally and the retentate reaches the requested
+   moisture fraction: water mass = mc * total mass  (mw: the molecular weight the branch uses; the ID=None
+   branch hard-codes 18.01528, so the chemical's own MW must agree with it) *)
+Theorem C20_moisture_reached : forall n mws R P w mc (by_mass : bool) mwc strict,
+  wf_strm n R -> wf_strm n P -> length mws = n -> (w < n)%nat ->
+  ~ 1 - mc == 0 ->
+  let mw := if by_mass then nthq mws w else mwc in
+  0 < mw -> nthq mws w == mw ->
+  let target := water_target mws R w mc mw in
+  target - nthq (total R) w <= nthq (liq P) w ->
+  let m := adjust_moisture mws R P w mc by_mass mwc strict in
+  m_err m = None /\
+  nthq (total (m_ret m)) w == target /\
+  nthq (total (m_ret m)) w * mw == mc * fmass mws (m_ret m).
+Proof. exact moisture_reached_lemma. Qed.
+Print Assumptions C20_moisture_reached.
+
+(* no negative flow after a normal return (including the strict = False clamp) *)
+Theorem C20_moisture_nonneg : forall n mws R P w mc (by_mass : bool) mwc strict,
+  wf_strm n R -> wf_strm n P -> length mws = n -> (w < n)%nat ->
+  0 <= mc < 1 ->
+  let mw := if by_mass then nthq mws w else mwc in
+  0 < mw -> nthq mws w == mw ->
+  (forall i, 0 <= nthq (liq R) i) -> (forall i, 0 <= nthq (oth R) i) -> nthq (oth R) w == 0 ->
+  (forall i, 0 <= nthq (liq P) i) -> (forall i, 0 <= nthq mws i) ->
+  let m := adjust_moisture mws R P w mc by_mass mwc strict in
+  m_err m = None ->
+  forall i, 0 <= nthq (liq (m_ret m)) i /\ 0 <= nthq (liq (m_perm m)) i.
+Proof. exact moisture_nonneg_lemma. Qed.
+Print Assumptions C20_moisture_nonneg.
+
+(* mix_and_split_with_moisture_content: outlets add up to the inlets *)
+Theorem C20_mix_moisture_conserves : forall n mws ins split w mc by_mass mwc strict,
+  (forall v, In v ins -> length v = n) -> length split = n -> (w < n)%nat ->
+  (by_mass = true -> ~ nthq mws w == 0) ->
+  let m := mix_and_split_with_moisture n mws ins split w mc by_mass mwc strict in
+  forall i, nthq (total (m_ret m)) i + nthq (total (m_perm m)) i == colsum ins i.
+Proof. exact mix_moisture_conserves_lemma. Qed.
+Print Assumptions C20_mix_moisture_conserves.
+
+(* ------------------------------------------------------------------ partition *)
+(* top + bottom = feed on every normal return, for every solver output, K, forced chemicals and
+   previous content of the outlets; the returned fraction is in [0, 1] *)
+Theorem C20_partition_conserves : forall pf feed top0 bot0 ids K topc botc strict phi,
+  length feed = length bot0 ->
+  let r := partition pf feed top0 bot0 ids K topc botc strict in
+  p_phi r = Ok phi ->
+  forall i, nthq (p_top r) i + nthq (p_bot r) i == nthq feed i.
+Proof. exact partition_conserves_lemma. Qed.
+Print Assumptions C20_partition_conserves.
+
+Theorem C20_partition_phi_range : forall pf feed top0 bot0 ids K topc botc strict phi,
+  let r := partition pf feed top0 bot0 ids K topc botc strict in
+  p_phi r = Ok phi ->
+  p_top r = vsub feed (p_bot r) /\ length (p_bot r) = length bot0 /\ 0 <= phi <= 1.
+Proof. exact partition_ok_shape. Qed.
+Print Assumptions C20_partition_phi_range.
+
+(* no negative flow on a normal return: any K (also malformed), any solver output; the bottom may hold stale
+   flows as long as they do not exceed the feed (fresh outlets: all zero) *)
+Theorem C20_partition_nonneg : forall pf feed top0 bot0 ids K topc botc strict phi,
+  length feed = length bot0 -> nonneg feed -> bounded feed bot0 ->
+  let r := partition pf feed top0 bot0 ids K topc botc strict in
+  p_phi r = Ok phi ->
+  forall i, 0 <= nthq (p_top r) i /\ 0 <= nthq (p_bot r) i <= nthq feed i.
+Proof. exact partition_nonneg_lemma. Qed.
+Print Assumptions C20_partition_nonneg.
+
+(* 0 < phi < 1, K >= 0: nothing is clipped and (1 - phi) top_k = phi K_k bottom_k for every equilibrium chemical *)
+Theorem C20_partition_K_cross : forall pf feed top0 bot0 ids K topc botc strict phi,
+  length feed = length bot0 -> nonneg feed ->
+  NoDup ids -> (forall i, In i ids -> (i < length bot0)%nat) ->
+  length K = length ids -> (forall k, 0 <= nthq K k) ->
+  let r := partition pf feed top0 bot0 ids K topc botc strict in
+  p_phi r = Ok phi -> 0 < phi < 1 ->
+  p_warns r = 0%nat /\
+  forall k, (k < length ids)%nat ->
+    (1 - phi) * nthq (p_top r) (nth k ids 0%nat) == phi * nthq K k * nthq (p_bot r) (nth k ids 0%nat).
+Proof. exact partition_K_cross_lemma. Qed.
+Print Assumptions C20_partition_K_cross.
+
+(* y_k / x_k = K_k * c with mole fractions over the equilibrium chemicals (what partition_coefficients computes)
+   and the common factor c = phi B / ((1 - phi) T) *)
+Theorem C20_partition_K : forall pf feed top0 bot0 ids K topc botc strict phi,
+  length feed = length bot0 -> nonneg feed ->
+  NoDup ids -> (forall i, In i ids -> (i < length bot0)%nat) ->
+  length K = length ids -> (forall k, 0 <= nthq K k) ->
+  let r := partition pf feed top0 bot0 ids K topc botc strict in
+  p_phi r = Ok phi -> 0 < phi < 1 ->
+  let T := qsum (gather (p_top r) ids) in
+  let B := qsum (gather (p_bot r) ids) in
+  ~ T == 0 -> ~ B == 0 ->
+  forall k, (k < length ids)%nat -> ~ nthq (p_bot r) (nth k ids 0%nat) == 0 ->
+    (nthq (p_top r) (nth k ids 0%nat) / T) / (nthq (p_bot r) (nth k ids 0%nat) / B)
+    == nthq K k * (phi * B / ((1 - phi) * T)).
+Proof. exact partition_K_lemma. Qed.
+Print Assumptions C20_partition_K.
+
+(* if the solver returned a root of the Rachford-Rice residual (the function it is given in
+   binary_phase_fraction.py), the phase totals over equilibrium + forced chemicals are phi F and (1 - phi) F and
+   the mole fractions over those chemicals reproduce K exactly; the factor c above is then
+   phi ((1 - phi) F - Fb) / ((1 - phi) (phi F - Fa)), i.e. 1 without forced chemicals *)
+Theorem C20_partition_K_root : forall pf feed top0 bot0 ids K topc botc strict phi,
+  length feed = length bot0 -> nonneg feed ->
+  NoDup ids -> (forall i, In i ids -> (i < length bot0)%nat) ->
+  length K = length ids -> (forall k, 0 <= nthq K k) ->
+  let r := partition pf feed top0 bot0 ids K topc botc strict in
+  p_phi r = Ok phi -> 0 < phi < 1 ->
+  let Fa := forced_sum feed topc in
+  let Fb := forced_sum feed botc in
+  let F := qsum (gather feed ids) + (Fa + Fb) in
+  rr_objective phi (vdivs (gather feed ids) F) K (Fa / F) (Fb / F) == 0 ->
+  let T := qsum (gather (p_top r) ids) + Fa in
+  let B := qsum (gather (p_bot r) ids) + Fb in
+  T == phi * F /\ B == (1 - phi) * F /\
+  forall k, (k < length ids)%nat -> ~ nthq (p_bot r) (nth k ids 0%nat) == 0 ->
+    (nthq (p_top r) (nth k ids 0%nat) / T) / (nthq (p_bot r) (nth k ids 0%nat) / B) == nthq K k.
+Proof. exact partition_K_exact_lemma. Qed.
+Print Assumptions C20_partition_K_root.
+
+(* forced chemicals end in their outlet; chemicals outside IDs and the forced sets: the bottom keeps what it had,
+   the top gets the rest of the feed *)
+Theorem C20_partition_forced : forall pf feed top0 bot0 ids K topc botc strict phi,
+  length feed = length bot0 -> length top0 = length bot0 ->
+  let r := partition pf feed top0 bot0 ids K topc botc strict in
+  p_phi r = Ok phi ->
+  (forall j, In j botc -> ~ In j ids -> (j < length bot0)%nat ->
+     nthq (p_bot r) j == nthq feed j /\ nthq (p_top r) j == 0) /\
+  (forall j, In j topc -> ~ In j botc -> ~ In j ids -> (j < length bot0)%nat ->
+     nthq (p_bot r) j == 0 /\ nthq (p_top r) j == nthq feed j) /\
+  (forall j, ~ In j topc -> ~ In j botc -> ~ In j ids ->
+     nthq (p_bot r) j == nthq bot0 j /\ nthq (p_top r) j == nthq feed j - nthq bot0 j).
+Proof. exact partition_forced_lemma. Qed.
+Print Assumptions C20_partition_forced.
+
+(* separations.phase_fraction returns the phase fraction (or error) partition returns *)
+Theorem C20_phase_fraction_agrees : forall pf feed top0 bot0 ids K topc botc strict,
+  fst (phase_fraction pf feed ids K topc botc strict) = p_phi (partition pf feed top0 bot0 ids K topc botc strict)
+  /\ snd (phase_fraction pf feed ids K topc botc strict) = p_warns (partition pf feed top0 bot0 ids K topc botc strict).
+Proof. exact phase_fraction_agrees_lemma. Qed.
+Print Assumptions C20_phase_fraction_agrees.
+
+(* closed form for two components is the root of the residual; as_valid_fraction clamps into [0, 1] *)
+Theorem C20_rr2_root : forall z1 z2 K1 K2,
+  ~ (z1 + z2) * (K1 - 1) * (K2 - 1) == 0 ->
+  let phi := compute_phase_fraction_2N z1 z2 K1 K2 in
+  ~ 1 + phi * (K1 - 1) == 0 -> ~ 1 + phi * (K2 - 1) == 0 ->
+  rr_objective phi [z1; z2] [K1; K2] 0 0 == 0.
+Proof. exact rr2_root_lemma. Qed.
+Print Assumptions C20_rr2_root.
+
+Theorem C20_valid_fraction_range : forall x, 0 <= as_valid_fraction x <= 1.
+Proof. exact as_valid_fraction_range. Qed.
+Print Assumptions C20_valid_fraction_range.
+
+(* ------------------------------------------------------------------ lle / vle wrappers *)
+(* for EVERY output (rowL, rowl) of the equilibrium call and every efficiency:
+   top' + bottom' = eff (rowL + rowl) + (1 - eff) feed   (eff < 1),   rowL + rowl   (eff >= 1) *)
+Theorem C20_eff_mix : forall rho eq extra feed top0 bot0 topchem eff rowL rowl,
+  eq feed = (rowL, rowl) -> length rowL = length feed -> length rowl = length feed ->
+  let r := lle_wrap rho eq extra feed top0 bot0 topchem eff in
+  e_err r = None ->
+  forall i, nthq (e_top r) i + nthq (e_bot r) i ==
+            if qltb eff 1 then eff * (nthq rowL i + nthq rowl i) + (1 - eff) * nthq feed i
+            else nthq rowL i + nthq rowl i.
+Proof. exact eff_mix_lemma. Qed.
+Print Assumptions C20_eff_mix.
+
+(* contract rowL + rowl = feed  =>  top' + bottom' = feed for every efficiency, density function, top_chemical *)
+Theorem C20_lle_conserves : forall rho eq extra feed top0 bot0 topchem eff rowL rowl,
+  eq feed = (rowL, rowl) -> length rowL = length feed -> length rowl = length feed ->
+  (forall i, nthq rowL i + nthq rowl i == nthq feed i) ->
+  let r := lle_wrap rho eq extra feed top0 bot0 topchem eff in
+  e_err r = None ->
+  forall i, nthq (e_top r) i + nthq (e_bot r) i == nthq feed i.
+Proof. exact lle_conserves_lemma. Qed.
+Print Assumptions C20_lle_conserves.
+
+Theorem C20_lle_nonneg : forall rho eq extra feed top0 bot0 topchem eff rowL rowl,
+  eq feed = (rowL, rowl) -> length rowL = length feed -> length rowl = length feed ->
+  (forall i, 0 <= nthq rowL i) -> (forall i, 0 <= nthq rowl i) -> (forall i, 0 <= nthq feed i) ->
+  0 <= eff ->
+  let r := lle_wrap rho eq extra feed top0 bot0 topchem eff in
+  e_err r = None ->
+  forall i, 0 <= nthq (e_top r) i /\ 0 <= nthq (e_bot r) i.
+Proof. exact lle_nonneg_lemma. Qed.
+Print Assumptions C20_lle_nonneg.
+
+(* without mixing the two outlets are exactly the two phases *)
+Theorem C20_lle_routes : forall rho eq extra feed top0 bot0 topchem eff rowL rowl,
+  eq feed = (rowL, rowl) -> 1 <= eff ->
+  let r := lle_wrap rho eq extra feed top0 bot0 topchem eff in
+  e_err r = None ->
+  (e_top r = rowL /\ e_bot r = rowl) \/ (e_top r = rowl /\ e_bot r = rowL).
+Proof. exact lle_routes_lemma. Qed.
+Print Assumptions C20_lle_routes.
+
+(* vle: the vapour outlet is the g row and the liquid outlet the l row of the flash *)
+Theorem C20_vle_routes : forall eq feed rowg rowl,
+  eq feed = (rowg, rowl) -> vle_wrap eq feed = (rowg, rowl).
+Proof. exact vle_routes_lemma. Qed.
+Print Assumptions C20_vle_routes.
+
+(* ------------------------------------------------------------------ phase_split *)
+(* each phase goes to its own outlet, unchanged (hence the outlets add up to the feed); a wrong number of
+   outlets is a RuntimeError *)
+Theorem C20_phase_split_routes : forall rows outs0 outs,
+  phase_split rows outs0 = Ok outs -> outs = rows /\ length outs0 = length rows.
+Proof. exact phase_split_routes_lemma. Qed.
+Print Assumptions C20_phase_split_routes.
+
+Theorem C20_phase_split_error : forall rows outs0 e,
+  phase_split rows outs0 = Err e -> e = ERuntime /\ length outs0 <> length rows.
+Proof. exact phase_split_err_lemma. Qed.
+Print Assumptions C20_phase_split_error.
+
+(* ------------------------------------------------------------------ chemical_splits *)
+(* split * mixed = first stream wherever mixed is not zero, under both division rules *)
+Theorem C20_chemical_splits_value : forall heur a b mixed s m,
+  chemical_splits heur a b mixed = Ok s -> mixed_of a b mixed = Some m -> length a = length m ->
+  forall i, ~ nthq m i == 0 -> nthq s i * nthq m i == nthq a i.
+Proof. exact chemical_splits_value_lemma. Qed.
+Print Assumptions C20_chemical_splits_value.
+
+Theorem C20_chemical_splits_zero : forall heur a b mixed s,
+  chemical_splits heur a b mixed = Ok s -> forall i, nthq a i == 0 -> nthq s i == 0.
+Proof. exact chemical_splits_zero_lemma. Qed.
+Print Assumptions C20_chemical_splits_zero.
+
+(* ------------------------------------------------------------------ material_balance (flow) *)
+(* solver contract A x = b  =>  every variable inlet is scaled by its factor and
+   inlets - outlets vanishes for each chosen chemical *)
+Theorem C20_balance_flow : forall solve n ids vin cin cout bal x vin',
+  (forall v, In v cout -> length v = n) ->
+  material_balance solve n ids vin cin cout bal = Ok vin' ->
+  solve (mb_matrix ids vin) (mb_rhs n ids cin cout) = Ok x ->
+  length x = length vin ->
+  (forall k, nthq (matvec (mb_matrix ids vin) x) k == nthq (mb_rhs n ids cin cout) k) ->
+  vin' = scale_zip x vin /\
+  forall k, (k < length ids)%nat ->
+    colsum vin' (nth k ids 0%nat) + colsum cin (nth k ids 0%nat) - colsum cout (nth k ids 0%nat) == 0.
+Proof. exact balance_flow_lemma. Qed.
+Print Assumptions C20_balance_flow.
+
+(* ------------------------------------------------------------------ non-vacuity *)
+Ltac qc := vm_compute; repeat split; try reflexivity; try discriminate; try (let H := fresh in intro H; discriminate H).
+
+(* partition, interior phase fraction with a forced top and a forced bottom chemical *)
+Definition ex_feed : vec := [4; 2; 1; 1; 3].
+Definition ex_part := partition (fun _ _ _ _ => 1 # 2) ex_feed [0; 0; 0; 0; 0] [0; 0; 0; 0; 0] [0; 1]%nat [2; 1 # 2] [2]%nat [3]%nat true.
+Example C20_ex_partition :
+  p_phi ex_part = Ok (1 # 2) /\ p_warns ex_part = 0%nat /\
+  vapproxb (p_top ex_part) [8 # 3; 2 # 3; 1; 0; 3] = true /\ vapproxb (p_bot ex_part) [4 # 3; 4 # 3; 0; 1; 0] = true /\
+  NoDup [0; 1]%nat /\ nonneg ex_feed /\ bounded ex_feed [0; 0; 0; 0; 0].
+Proof.
+  split; [reflexivity|]. split; [reflexivity|]. split; [reflexivity|]. split; [reflexivity|].
+  split; [repeat constructor; simpl; intuition lia|].
+  split; intros i; do 6 (destruct i as [|i]; [qc|]); qc.
+Qed.
+
+(* a Rachford-Rice root with forced chemicals: one equilibrium chemical with K = 1, Fa = Fb = 1, phi = 1/2 *)
+Example C20_ex_root_forced :
+  let feed := [2; 1; 1] in
+  let Fa := forced_sum feed [1]%nat in let Fb := forced_sum feed [2]%nat in
+  let F := qsum (gather feed [0]%nat) + (Fa + Fb) in
+  rr_objective (1 # 2) (vdivs (gather feed [0]%nat) F) [1] (Fa / F) (Fb / F) == 0 /\
+  p_phi (partition (fun _ _ _ _ => 1 # 2) feed [0; 0; 0] [0; 0; 0] [0]%nat [1] [1]%nat [2]%nat false) = Ok (1 # 2).
+Proof. qc. Qed.
+
+(* ... and without: equimolar binary feed, K = (2, 1/2), phi = 1/2 is the root and is what the closed form gives *)
+Example C20_ex_root_binary :
+  rr_objective (1 # 2) [1 # 2; 1 # 2] [2; 1 # 2] 0 0 == 0 /\
+  compute_phase_fraction_2N (1 # 2) (1 # 2) 2 (1 # 2) == 1 # 2 /\
+  binary_phase_fraction_2 (1 # 2) (1 # 2) 2 (1 # 2) = Ok (compute_phase_fraction_2N (1 # 2) (1 # 2) 2 (1 # 2)).
+Proof. qc. Qed.
+
+(* clipping: negative K makes a bottom flow negative; strict raises, non-strict clips with a warning *)
+Example C20_ex_partition_infeasible :
+  p_phi (partition (fun _ _ _ _ => 1 # 2) [4; 2] [0; 0] [0; 0] [0; 1]%nat [-4; 1 # 2] [] [] true) = Err EInfeasible /\
+  let r := partition (fun _ _ _ _ => 1 # 2) [4; 2] [0; 0] [0; 0] [0; 1]%nat [-4; 1 # 2] [] [] false in
+  p_phi r = Ok (1 # 2) /\ p_warns r = 1%nat /\ nthq (p_bot r) 0 == 0 /\ nthq (p_top r) 0 == 4.
+Proof. qc. Qed.
+
+Example C20_ex_clip :
+  handle_infeasible [-1; 1 # 2; 3] [1; 1; 1] false = mkClip [0; 1 # 2; 1] None 2 /\
+  c_err (handle_infeasible [-1; 1 # 2; 3] [1; 1; 1] true) = Some EInfeasible /\
+  c_err (handle_infeasible [0; 1 # 2; 1] [1; 1; 1] true) = None.
+Proof. qc. Qed.
+
+(* moisture: enough water (target reached), and too little water with strict = False (clamp) and strict = None (raise) *)
+Definition ex_mws : vec := [16; 8].
+Example C20_ex_moisture_reached :
+  let R := mkS [0; 2] [0; 0] in let P := mkS [8; 1] [0; 0] in
+  let m := adjust_moisture ex_mws R P 0 (1 # 2) true 16 None in
+  wf_strm 2 R /\ wf_strm 2 P /\ water_target ex_mws R 0 (1 # 2) 16 - nthq (total R) 0 <= nthq (liq P) 0 /\
+  m_err m = None /\ nthq (liq (m_ret m)) 0 == 1 /\ nthq (liq (m_perm m)) 0 == 7.
+Proof. qc. Qed.
+
+Example C20_ex_moisture_clamp :
+  let R := mkS [1 # 2; 2] [1 # 4; 0] in let P := mkS [1 # 8; 1] [0; 0] in
+  let m := adjust_moisture ex_mws R P 0 (3 # 4) true 16 (Some false) in
+  m_err m = None /\ nthq (liq (m_perm m)) 0 == 0 /\ nthq (liq (m_ret m)) 0 == 5 # 8 /\
+  m_err (adjust_moisture ex_mws R P 0 (3 # 4) true 16 None) = Some EInfeasible.
+Proof. qc. Qed.
+
+Example C20_ex_mix_split :
+  pair_approxb (mix_and_split 3 [[1; 2; 0]; [3; 0; 4]] [1 # 2; 1; 1 # 4]) [2; 2; 1] [2; 0; 3] = true.
+Proof. reflexivity. Qed.
+
+(* lle wrapper: non-conserving oracle output is passed on, conserving one is conserved for eff = 1/2 *)
+Example C20_ex_lle :
+  let rho := rho_stub [16; 32] [1 # 32; 1 # 64] in
+  let r := lle_wrap rho (fun _ => ([1; 1], [1; 3])) 0 [2; 4] [0; 0] [9; 9] false (1 # 2) in
+  e_err r = None /\ vapproxb (e_top r) [1; 3 # 2] = true /\ vapproxb (e_bot r) [1; 5 # 2] = true /\
+  e_err (lle_wrap rho (fun _ => ([1; 1], [1; 3])) 1 [2; 4] [0; 0] [9; 9] false (1 # 2)) = Some EValue.
+Proof. qc. Qed.
+
+Example C20_ex_phase_split :
+  phase_split [[1; 0]; [0; 2]] [[5; 5]; [6; 6]] = Ok [[1; 0]; [0; 2]] /\
+  phase_split [[1; 0]; [0; 2]] [[5; 5]] = Err ERuntime.
+Proof. qc. Qed.
+
+Example C20_ex_chemical_splits :
+  resv_approxb (chemical_splits true [1; 0; 2] (Some [3; 1; 0]) None) (Ok [1 # 4; 0; 1]) = true /\
+  resv_approxb (chemical_splits true [1; 0; 2] None (Some [0; 1; 2])) (Ok [0; 0; 1]) = true /\
+  chemical_splits false [1; 0; 2] None (Some [0; 1; 2]) = Err EZeroDiv.
+Proof. qc. Qed.
+
+(* material balance: the doctest-like system, exact solution x = (12, 0) *)
+Example C20_ex_balance :
+  let solve := fun (_ : list vec) (_ : vec) => Ok [12; 0] in
+  let vin := [[1; 1; 0]; [0; 1; 2]] in let cin := [[4; 0; 0]] in let cout := [[16; 8; 2]; [0; 4; 0]] in
+  resvl_approxb (material_balance solve 3 [0; 1]%nat vin cin cout true) (Ok [[12; 12; 0]; [0; 0; 0]]) = true /\
+  veqb (matvec (mb_matrix [0; 1]%nat vin) [12; 0]) (mb_rhs 3 [0; 1]%nat cin cout) = true.
+Proof. qc. Qed.
